@@ -74,11 +74,14 @@ void run_case(ByteSource& s, CaseInfo& ci) {
     int d = (int)v[i].v->Dim();
     if (d == 0) { v[i].st = EMPTYV; v[i].d = 0; } else { v[i].st = VALID; v[i].d = d; }
   };
+  // numeric algorithms (matrix exponential, eigen solver) are only given finite, moderate values: NaN/inf inputs are excluded
+  auto tame = [&](int i) { bool bad = false; for (unsigned k = 0; k < v[i].v->Size(); k++) { double c = (*v[i].v)[k]; if (!std::isfinite(c) || fabs(c) > 1e3) bad = true; } if (bad) v[i].v->SetAllComponents(0.25); };
   int nops = 1 + (int)s.choose(60);
   for (int step = 0; step < nops && !s.exhausted(); step++) {
     unsigned op = s.choose(48);
     char nm[80]; snprintf(nm, sizeof nm, "op%u", op);
     bool threw = false;
+    uint64_t allocs_before = ledger::allocs(); int live_vectors_before = 0; for (int q = 0; q < NV; q++) if (v[q].st == VALID && !v[q].ext) live_vectors_before++;
     try {
       switch (op) {
         case 0: { int i = pickv(0); if (i < 0) break; v[i].v.reset(new SU_vector()); v[i].st = EMPTYV; break; }
@@ -180,8 +183,8 @@ void run_case(ByteSource& s, CaseInfo& ci) {
         }
         case 24: { int i = pickv(2); if (i < 0) break; v[i].v->Transpose(); SU_vector r = v[i].v->Real(), m = v[i].v->Imag(); (void)r; (void)m; break; }
         case 25: { int i = pickv(2); if (i < 0) break; GslMat g(Mat::identity(v[i].d)); SU_vector r = s.flag() ? v[i].v->UTransform(g.m) : v[i].v->UDaggerTransform(g.m); (void)r; break; }
-        case 26: { int i = pickv(2); if (i < 0) break; int j = pick_same_dim(v[i].d); if (j < 0) break; SU_vector r = v[i].v->UTransform(*v[j].v, gsl_complex_rect(0, 0.01 * (1 + s.choose(50)))); (void)r; break; }
-        case 27: { int i = pickv(2); if (i < 0) break; auto es = v[i].v->GetEigenSystem(s.flag()); (void)es; break; }
+        case 26: { int i = pickv(2); if (i < 0) break; int j = pick_same_dim(v[i].d); if (j < 0) break; tame(i); tame(j); SU_vector r = v[i].v->UTransform(*v[j].v, gsl_complex_rect(0, 0.01 * (1 + s.choose(50)))); (void)r; break; }
+        case 27: { int i = pickv(2); if (i < 0) break; tame(i); auto es = v[i].v->GetEigenSystem(s.flag()); (void)es; break; }
         case 28: { int i = pickv(2); if (i < 0) break; auto g = v[i].v->GetGSLMatrix(); std::vector<double> c = v[i].v->GetComponents(); (void)g; (void)c; break; }
         case 29: { int i = pickv(1); if (i < 0 || v[i].st != EMPTYV) break; auto g = v[i].v->GetGSLMatrix(); (void)g; break; }  // documented to throw for an uninitialised vector
         case 30: {  // evolution buffers (exact size) through all three Prepare forms and both filters
@@ -254,6 +257,11 @@ void run_case(ByteSource& s, CaseInfo& ci) {
         default: { int i = pickv(2); if (i < 0) break; int q = (int)s.choose(v[i].d * v[i].d); (*v[i].v)[q] = 0.75; break; }
       }
     } catch (const std::exception& e) { threw = true; }
+    // a new self-owned vector appeared although operator new[] was not called: its block came from the cache
+    if (!threw && threw_before && ledger::allocs() == allocs_before) {
+      int now = 0; for (int q = 0; q < NV; q++) if (v[q].st == VALID && !v[q].ext) now++;
+      if (now > live_vectors_before) for (int q = 0; q < NV; q++) if (v[q].st == VALID && !v[q].ext && released_after_throw[v[q].d]) cache_hit_after = true;
+    }
     log += nm; if (threw) { log += "!"; throws++; threw_before = true; } log += " ";
     if (threw) for (int i = 0; i < NV; i++) if (v[i].st == ABSENT) v[i].v.reset();  // a constructor that threw leaves the slot absent
     CHECK(ledger::bad_delete_count() == bad0, "C15|foreign-or-double-delete", "delete[] of %p which the allocator does not hold, after %s :: %s", ledger::last_bad, nm, log.c_str());
